@@ -81,6 +81,15 @@ def check( prop, tier='quick', root=None, write=True, quiet=False, evidence_dir=
         selftest = st.run_for_property( prop, root=ctx.model.root )
         for miss in selftest['misses']:
             errors.append( 'selftest: ' + miss )
+    probes = None
+    if tier == 'thorough' and not errors:
+        # robustness probes over the files this property's rules actually anchor in: no behaviour-preserving rename / comparison flip
+        # may change a verdict
+        from . import probes as pb
+        files = sorted( { i['site'].split( ':' )[0] for rid in rule_ids if rid in results for i in results[rid].instances if i.get( 'site' ) and i['site'].split( ':' )[0].endswith( '.py' ) } )
+        probes = pb.run( rule_ids, files, root=ctx.model.root )
+        for fa in probes['false_alarms'][:10]:
+            errors.append( 'probe (behaviour-preserving edit changed a verdict): ' + fa )
 
     evdir = evidence_dir or os.path.join( VERIF, 'evidence' )
     lines = []
@@ -148,6 +157,8 @@ def check( prop, tier='quick', root=None, write=True, quiet=False, evidence_dir=
     if selftest is not None:
         cov['selftest'] = { k: v for k, v in selftest.items() if k != 'misses' }
         cov['selftest']['misses'] = selftest['misses']
+    if probes is not None:
+        cov['robustness_probes'] = probes
     ev = dict( property_id=prop, tier=tier, seed=int( os.environ.get( 'VERIF_SEED', '0' ) or 0 ), level='other',
                coverage=cov, wall_s=round( wall, 3 ), violations=len( findings ),
                assumptions=spec.get( 'assumptions', [] ) + [
